@@ -106,6 +106,7 @@ def render(inst, noise=None, with_second=True):
                 'ties_probability_1: 0.5\nskew_for_agent_1: 2.0\n' % I['n1']
     elif noise.get('final_newline', True):
         text += '\n'
+    text += '\n' * int(noise.get('blank_tail') or 0)
     return text
 
 
